@@ -66,6 +66,20 @@ def sh(cmd, timeout=600, cwd=None, env=None):
 # build
 # --------------------------------------------------------------------------
 
+# statement files outside Props/Cxx.v that a property's check also gates on (see DESIGN.md section 11)
+EXTRA_PROPS = {
+    "C01": ["P1", "ShexStage", "FreqLawsProps"],
+    "C02": ["P1", "ShexStage", "FreqLawsProps"],
+    "C03": ["ShexStage"],
+    "C05": ["C05refs"],
+    "C08": ["C06Channels"],
+    "C09": ["P1"],
+    "C12": ["FreqLawsProps"],
+    "C14": ["ShexStage"],
+    "C16": ["P1"],
+}
+
+
 class BuildState(object):
     def __init__(self):
         self.gen_ok = True
@@ -165,6 +179,26 @@ def build(prop=None, need_model=True):
             bs.proof_ok[prop] = (rc == 0)
             bs.proof_log[prop] = out[-4000:]
             _collect_assumptions(bs, prop)
+            # statement files the property's argument rests on but Props/<prop>.v does not import: they are part of
+            # the proof gate too (a break in one of them is a break of the property's proof)
+            for extra in EXTRA_PROPS.get(prop, []):
+                if not os.path.exists(props_files(extra)):
+                    continue
+                rc, out, _ = sh("timeout 1500 make -j%d theories/Props/%s.vo" % (NCPU, extra), cwd=ROCQ, timeout=1560)
+                sub = BuildState()
+                sub.proof_ok[extra] = (rc == 0)
+                sub.proof_log[extra] = out[-4000:]
+                _collect_assumptions(sub, extra)
+                n0, d0 = bs.obligations.get(prop, (0, 0))
+                n1, d1 = sub.obligations.get(extra, (0, 0))
+                bs.obligations[prop] = (n0 + n1, d0 + d1)
+                bs.assumptions[prop] = bs.assumptions.get(prop, []) + [("%s.%s" % (extra, t), a)
+                                                                      for t, a in sub.assumptions.get(extra, [])]
+                bs.theorem_names[prop] = bs.theorem_names.get(prop, []) + ["%s.%s" % (extra, t)
+                                                                          for t in sub.theorem_names.get(extra, [])]
+                if not sub.proof_ok.get(extra):
+                    bs.proof_ok[prop] = False
+                    bs.proof_log[prop] = (bs.proof_log.get(prop, "") + "\n[Props/%s.v] " % extra + sub.proof_log[extra])[-4000:]
     finally:
         _unlock()
     return bs
@@ -199,7 +233,7 @@ def _collect_assumptions(bs, prop):
         bs.proof_ok[prop] = False
         bs.proof_log[prop] = out[-4000:]
     bs.forbidden = scan_forbidden()
-    if os.environ.get("VERIF_CURRENT_TIER") == "thorough" and bs.proof_ok.get(prop):
+    if os.environ.get("VERIF_CURRENT_TIER") == "thorough" and bs.proof_ok.get(prop) and not os.environ.get("VERIF_ESCALATED"):
         # independent re-check of the compiled property file and everything it depends on
         rc2, out2, _ = sh("timeout 3000 coqchk -silent -o -Q theories Shexer Shexer.Props.%s" % prop, cwd=ROCQ, timeout=3100)
         i = out2.find("CONTEXT SUMMARY")
